@@ -94,15 +94,24 @@ Fixpoint all_matched (sc : schema) (crit : ex) (os : list obj) : option pyexn :=
   | [] => None
   | o :: r => match matched sc crit o with MRaise e => Some e | _ => all_matched sc crit r end
   end.
-Fixpoint update_all (sc : schema) (crit : ex) (sets : list (nat * ex)) (os : list obj) : list obj * option pyexn :=
+(* the loop of _apply_update_set_values_to_objects over the matched objects, with its "to_expire" variable *)
+Fixpoint update_all_st (sc : schema) (crit : ex) (sets : list (nat * ex)) (pre : list nat) (os : list obj)
+  : list obj * option pyexn :=
   match os with
   | [] => ([], None)
   | o :: r =>
-      match update_obj sc crit sets o with
-      | OOk o' => let (r', e) := update_all sc crit sets r in (o' :: r', e)
-      | ORaise e => (o :: r, Some e)
+      match matched sc crit o with
+      | Matched _ =>
+          match apply_sets_st sc sets pre o with
+          | (OOk o', pre') => let (r', e) := update_all_st sc crit sets pre' r in (o' :: r', e)
+          | (ORaise e, _) => (o :: r, Some e)
+          end
+      | NotMatched => let (r', e) := update_all_st sc crit sets pre r in (o :: r', e)
+      | MRaise e => (o :: r, Some e)
       end
   end.
+Definition update_all (sc : schema) (crit : ex) (sets : list (nat * ex)) (os : list obj) : list obj * option pyexn :=
+  update_all_st sc crit sets (uneval_targets sc sets) os.
 
 (* session entry after a DELETE: 0 = kept (with attributes) / 1 = removed *)
 Definition of_dres (d : dres) (o : obj) : tree :=
@@ -113,16 +122,20 @@ Definition of_dres (d : dres) (o : obj) : tree :=
 Definition sck (k : nat) : schema := fun c => if Nat.eqb c k then TyStr else TyInt.
 Definition of_obj_n (n : nat) (o : obj) : tree := L (map (fun c => of_attr (o c)) (seq 0 n)).
 Definition of_row_n (n : nat) (r : row) : tree := L (map (fun c => of_sv' (r c)) (seq 0 n)).
-Fixpoint fetch_update_all (sc : schema) (m : mapping) (keys : list (list sv)) (sets : list (nat * ex)) (rows : list row)
-  : list obj * option pyexn :=
+Fixpoint fetch_update_all_st (sc : schema) (m : mapping) (keys : list (list sv)) (sets : list (nat * ex)) (pre : list nat)
+  (rows : list row) : list obj * option pyexn :=
   match rows with
   | [] => ([], None)
   | r :: rest =>
-      match fetch_update_obj sc m keys sets r with
-      | OOk o' => let (os, e) := fetch_update_all sc m keys sets rest in (o' :: os, e)
-      | ORaise e => (map obj_of (r :: rest), Some e)
-      end
+      if in_keys m keys r then
+        match apply_sets_st sc sets pre (obj_of r) with
+        | (OOk o', pre') => let (os, e) := fetch_update_all_st sc m keys sets pre' rest in (o' :: os, e)
+        | (ORaise e, _) => (map obj_of (r :: rest), Some e)
+        end
+      else let (os, e) := fetch_update_all_st sc m keys sets pre rest in (obj_of r :: os, e)
   end.
+Definition fetch_update_all (sc : schema) (m : mapping) (keys : list (list sv)) (sets : list (nat * ex)) (rows : list row) :=
+  fetch_update_all_st sc m keys sets (uneval_targets sc sets) rows.
 
 (* input  L [9; strategy; op; k; mpk; crit; sets; rows]
      strategy 0 'evaluate', 1 'fetch' (RETURNING), 2 'fetch' on a dialect without RETURNING (SELECT of the
